@@ -232,7 +232,9 @@ def settings_oracle(ctx, o, first_only=False):
             continue
         lo, hi = h.min_salt_size, h.max_salt_size
         before = snapshot(getattr(h, "wrapped", h)) if not hasattr(h, "wrapped") else None
-        probes = sorted({lo, lo + 1, min(hi or lo + 40, lo + 7), (hi or lo + 40)})
+        probes = sorted({lo, lo + 1, min(hi or lo + 40, lo + 7), (hi or lo + 40)} |
+                        # sizes around the block sizes a generator might work in (a salt drawn in pieces must still have the configured size)
+                        {k for k in (31, 32, 33, 63, 64, 65, 100, 127, 128, 129, 200, 255, 256, 257, 1000) if lo <= k <= (hi or lo + 1024)})
         for k in probes:
             inp = {"op": "using", "hasher": name, "kwds": {"salt_size": k}}
             try:
